@@ -59,7 +59,7 @@ type ptOpts struct {
 }
 
 func genSorterStress(r *RNG) *Trace {
-	if r.Chance(0.004) {
+	if r.Chance(0.008) {
 		// byte runs of more than 64 KiB, three of them of different lengths,
 		// behind the same context (a sorter that stops comparing somewhere)
 		var in []byte
